@@ -35,7 +35,7 @@ func genIP6(rng *lib.Rand) []byte {
 	b := rng.Bytes(40 + n)
 	b[0] = 0x60 | b[0]&0x0f
 	be16(b, 4, n)
-	return b
+	return append(b, rng.Bytes(pick(rng, 0, 0, 0, 1, 4, 18))...) // trailing bytes (padding, FCS) after the payload
 }
 
 func genUDP(rng *lib.Rand) []byte {
